@@ -1030,7 +1030,7 @@ pub fn prop() -> DiceProp {
         nightly: false,
         check_only: false,
         ndice: 420,
-        quick: (2400, 1),
+        quick: (4000, 1),
         thorough: (6000, 6),
         build,
         fixed,
